@@ -132,6 +132,21 @@ def narrow_casts(ctx, rep):
             key = "%s:%s->%s:%d" % (fn, c["from"], c["to"], ordn[k] - 1)
             n += 1
             why = None
+            if not c["fits"]:
+                # the operand may get its bound in a private helper of the module or through an Option / Result adaptor: decide on
+                # the body with those helpers inlined and the adaptors expanded (variant payload intervals survive the match)
+                try:
+                    from mirq import inline_calls, expand_adaptors
+                    modp = (fn[1:].split(" as ")[0] if fn.startswith("<") else fn)
+                    modp = re.sub(r"::<impl .*$", "", modp).rsplit("::", 1)[0] + "::" if "<impl" in fn else modp.rsplit("::", 1)[0] + "::"
+                    nb = expand_adaptors(inline_calls(b, lambda d, modp=modp: d.startswith(modp) and "{closure" not in d and d != fn, depth=3))
+                    if nb is not b:
+                        an2 = absint.Intervals(nb, ctx.mir)
+                        same = [c2 for c2 in an2.casts if c2["line"] == c["line"] and c2["from"] == c["from"] and c2["to"] == c["to"] and c2["bb"] in an2.reachable()]
+                        if same and all(c2["fits"] for c2 in same):
+                            why = "operand interval %s fits %s (module helpers inlined, adaptors expanded)" % ([list(c2["iv"]) for c2 in same][:2], c["to"])
+                except Exception:
+                    pass
             if c["fits"]:
                 why = "operand interval %s fits %s" % (list(c["iv"]), c["to"])
             elif _decided_elsewhere(ctx, fn):
@@ -228,10 +243,14 @@ def racelaps_table(ctx, rep):
         rep.fail("R15.3", "encode:found", "impl From<RaceLaps> for u8 not found")
         return
     rep.fn(ENC)
+    from mirq import inline_calls, expand_adaptors
+    rl = lambda d: d.startswith("insim::insim::racelaps::") and "{closure" not in d and not d.startswith("<")
+    b = inline_calls(b, rl, depth=3)          # private conversion helpers are part of the encoder
+    b = expand_adaptors(b)
     rows = b.decision_rows()
     idx = {v["name"]: v["idx"] for v in en["variants"]}
 
-    def leaf2(o):
+    def leaf2(o, _m=None):
         if o[0] == "discr" and o[1] == ("arg", 1):
             return idx[cur["k"]]
         if o[0] == "field" and o[1][0] == "downcast" and o[1][1] == ("arg", 1) and o[2] == 0:
@@ -239,7 +258,7 @@ def racelaps_table(ctx, rep):
                 raise tabeval.Panic("payload of another variant")
             return cur["n"]
         return None
-    ev = tabeval.Evaluator(leaf2, lambda d, rd, args, e: tabeval.std_call(d, args, e))
+    ev = tabeval.Model(ctx, b, None, local_prefix="insim::insim::racelaps::", extra_leaf=leaf2).ev          # std idioms: ranges, Option adaptors
     wrong = {}
     undecided = None
     big = [5000, 65535, 65536, 2 ** 32 - 1, 2 ** 32, 2 ** 32 + 200, 2 ** 63, 2 ** 64 - 190, 2 ** 64 - 1]
@@ -247,8 +266,18 @@ def racelaps_table(ctx, rep):
     for k, n in dom:
         cur["k"], cur["n"] = k, n
         try:
+            ev.reset()
             m = ev.matching_rows(rows)
-            res = {ev.ev(r[1][3][0]) for r in m}
+            res = set()
+            for r in m:
+                ret = r[1]
+                if ret[1].startswith("call:") and ev.call is not None:
+                    v = ev.call(ret[1][5:], ret[1][5:], list(ret[3]), ev)
+                    if v is None:
+                        raise tabeval.Unknown("call %s" % ret[1][5:])
+                    res.add(v)
+                else:
+                    res.add(ev.ev(ret[3][0]))
         except tabeval.Unknown as e:
             undecided = "%s(%s): %s" % (k, n, e)
             break
